@@ -1,6 +1,7 @@
 import Slu.Model.Mem
 import SluProofs.Lemmas.Mem
 import SluProofs.Lemmas.MemInit
+import SluProofs.Lemmas.MemCurrent
 /-
 C08 — A caller workspace is never overrun; shortage is reported.
 
@@ -181,6 +182,27 @@ shortage code -/
 theorem expand_progress_fixed_D10 :
     (expand_fixed w8 noFail 2 .LUSUP false (memInit_fixed noFail cfgD10).st).2 = none ∧
       (growUntil fixed w8 noFail .LUSUP 3 50 (memInit_fixed noFail cfgD10).st).isSome = true := by decide
+
+/-! ### /repo as it is now (D7 open): the weaker invariant, and why D7 cannot overrun the buffer -/
+
+/-- **`current_confined`**: for /repo as it is now (D3, D10 repaired; D7 open) — `LUMemInit` followed by any
+request sequence: every live array stays inside `[0, size)` and no two overlap.  `top1 ≤ top2` may break
+after a UCOL expansion (`mem_inv_false_current_D7`), but then `used ≥ size`, every further request is refused
+(`overshoot_refuses`) and USUB, whose growth was the purpose of the second `extra`, has not grown. -/
+theorem current_confined (fail : Nat → Bool) (c : Cfg) (hw : c.w.Ok) (hld : c.w.liw ≤ c.w.dw) (hl : 0 < c.lwork)
+    (hn : 1 ≤ c.n) (ha : 1 ≤ c.annz) (hI : 0 ≤ isize c) (hD : 0 ≤ dsize c) (hnz : 0 ≤ c.fill * c.annz)
+    (h : (memInit current fail c).info = 0) (ts : List MemType) :
+    let s := ts.foldl (fun s t => (memXpand current c.w fail t s).1) (memInit current fail c).st
+    (∀ b ∈ s.blocks c.w, 0 ≤ b.1 ∧ 0 ≤ b.2 ∧ b.1 + b.2 ≤ s.size) ∧ (s.blocks c.w).Pairwise Disjoint := by
+  have h0 : InvC c.w (memInit current fail c).st :=
+    (memInit_inv_of_d3 current rfl fail c hw hl hn hI hD hnz (memInit_no_spin current fail c ha hnz) h).toC
+  have hall : ∀ (ts : List MemType) (s : St), InvC c.w s →
+      InvC c.w (ts.foldl (fun s t => (memXpand current c.w fail t s).1) s) := by
+    intro ts
+    induction ts with
+    | nil => intro s hs; exact hs
+    | cons t ts ih => intro s hs; exact ih _ (memXpand_current_invC c.w hw hld fail t s hs)
+  exact invC_confined c.w hw _ (hall ts _ h0)
 
 /-! ### Non-vacuity -/
 
